@@ -211,6 +211,200 @@ def unwrap_stmt(n):
     return n
 
 
+# ----------------------------------------------------------------------------- the thread id cache
+
+def is_tid_call(n):
+    """`CurrentThread::tid()` as an expression (its result may be discarded)"""
+    n = strip(n)
+    if n.get("kind") != "CallExpr" or len(kids(n)) != 1:
+        return False
+    c = strip(kids(n)[0])
+    return c.get("kind") == "DeclRefExpr" and c["referencedDecl"]["name"] == "tid" and ctype(c).replace(" ", "") == "int()"
+
+
+def assigns(s, name):
+    """the right-hand side when `s` is `name = rhs;`, else None"""
+    s = unwrap_stmt(s)
+    if s.get("kind") == "BinaryOperator" and s.get("opcode") == "=":
+        lhs, rhs = kids(s)
+        if ref_name(lhs) == name:
+            return rhs
+    return None
+
+
+def tid_steps(stmts_, what, stop=None):
+    """what a straight-line statement list does to the tid cache: `t_cachedTid = 0` and calls of
+    `CurrentThread::tid()`; assignments to t_threadName are ignored, anything else touching the cache is unknown"""
+    res = []
+    for s in stmts_:
+        s = unwrap_stmt(s)
+        if stop is not None and stop(s):
+            break
+        rhs = assigns(s, "t_cachedTid")
+        if rhs is not None:
+            v = strip(rhs)
+            if v.get("kind") != "IntegerLiteral" or int(v["value"]) != 0:
+                raise ExtractError("%s: t_cachedTid is assigned something other than 0" % what)
+            res.append(".reset")
+            continue
+        if any(is_tid_call(x) for x in walk(s) if x.get("kind") == "CallExpr"):
+            if not (is_tid_call(s) or (s.get("kind") == "BinaryOperator" and s.get("opcode") == "=" and is_tid_call(kids(s)[1]))):
+                raise ExtractError("%s: CurrentThread::tid() is called inside a statement of unknown shape" % what)
+            res.append(".callTid")
+            continue
+        if any(mentions(s, nm) for nm in ("t_cachedTid", "t_tidString", "t_tidStringLength", "cacheTid")):
+            raise ExtractError("%s: the tid cache is touched by a statement of unknown shape" % what)
+    return res
+
+
+TID_STEP = """/-- what a piece of start-up code does to the calling thread's tid cache -/
+inductive TidStep
+  | reset      -- `t_cachedTid = 0;`
+  | callTid    -- `CurrentThread::tid();`
+deriving Repr, DecidableEq
+"""
+
+IMPL_STEP = """/-- one statement of `Logger::Impl::Impl` -/
+inductive ImplStep
+  | formatTime                   -- `formatTime();`
+  | callTid                      -- `CurrentThread::tid();` (result discarded: the call fills the thread's tid cache)
+  | ins (ps : List Piece)        -- `stream_ << … << …;`
+  | errnoIf (ps : List Piece)    -- `if (savedErrno != 0) { stream_ << … }`
+deriving Repr, DecidableEq
+"""
+
+
+def tid_cache_section():
+    out = []
+    # --- CurrentThread::tid() (inline, CurrentThread.h)
+    cur = ast_dump("muduo/base/CurrentThread.cc", "muduo::CurrentThread::")
+    tid = the_function(cur, "tid")
+    ss = [unwrap_stmt(s) for s in stmts(body_of(tid))]
+    if len(ss) != 2 or ss[0].get("kind") != "IfStmt" or ss[1].get("kind") != "ReturnStmt" or len(kids(ss[0])) != 2 \
+            or ref_name(kids(ss[1])[0]) != "t_cachedTid":
+        raise ExtractError("CurrentThread::tid(): expected `if (…) cacheTid(); return t_cachedTid;`")
+    then = [unwrap_stmt(s) for s in (stmts(kids(ss[0])[1]) if kids(ss[0])[1].get("kind") == "CompoundStmt" else [kids(ss[0])[1]])]
+    if len(then) != 1 or then[0].get("kind") != "CallExpr" or callee_name(then[0]) != "cacheTid" or len(kids(then[0])) != 1:
+        raise ExtractError("CurrentThread::tid(): the guarded statement is not cacheTid()")
+    c = if_cond(ss[0])
+    while True:
+        c = strip(c)
+        if c.get("kind") == "ImplicitCastExpr" and c.get("castKind") == "IntegralToBoolean":
+            c = kids(c)[0]
+            continue
+        if c.get("kind") == "CallExpr" and len(kids(c)) == 3 and mentions(kids(c)[0], "__builtin_expect"):
+            c = kids(c)[1]
+            continue
+        break
+    tr = Tr({"t_cachedTid": "cachedTid"}, int_mode=True)
+    out.append(prop_def("tidCacheEmpty", [("cachedTid", "Int")], unparen(tr.expr(c)),
+                        "`CurrentThread::tid()` (CurrentThread.h): `cacheTid()` is called iff"))
+    # --- CurrentThread::cacheTid() (Thread.cc)
+    th = ast_dump("muduo/base/Thread.cc", "muduo::CurrentThread::cacheTid")
+    ct = the_function(th, "cacheTid")
+    ss = [unwrap_stmt(s) for s in stmts(body_of(ct))]
+    if len(ss) != 1 or ss[0].get("kind") != "IfStmt" or len(kids(ss[0])) != 2:
+        raise ExtractError("cacheTid: expected a single `if` without else")
+    out.append(prop_def("cacheTidGuard", [("cachedTid", "Int")], unparen(tr.expr(if_cond(ss[0]))),
+                        "`CurrentThread::cacheTid()` (Thread.cc): the id is read and formatted iff"))
+    inner = [unwrap_stmt(s) for s in stmts(kids(ss[0])[1])]
+    if len(inner) != 2:
+        raise ExtractError("cacheTid: expected two statements under the guard")
+    g = assigns(inner[0], "t_cachedTid")
+    if g is None or strip(g).get("kind") != "CallExpr" or callee_name(strip(g)) != "gettid" or len(kids(strip(g))) != 1:
+        raise ExtractError("cacheTid: first statement is not t_cachedTid = gettid()")
+    ln = assigns(inner[1], "t_tidStringLength")
+    if ln is None:
+        raise ExtractError("cacheTid: second statement does not assign t_tidStringLength")
+    sn = [n for n in walk(ln) if n.get("kind") == "CallExpr" and callee_name(n) == "snprintf"]
+    if len(sn) > 1:
+        raise ExtractError("cacheTid: more than one snprintf")
+    sn_all = [n for n in walk(body_of(ct)) if n.get("kind") == "CallExpr" and callee_name(n) == "snprintf"]
+    if len(sn_all) != 1:
+        raise ExtractError("cacheTid: expected exactly one snprintf")
+    a = kids(sn_all[0])[1:]
+    size = strip(a[1])
+    if ref_name(a[0]) != "t_tidString" or ref_name(a[3]) != "t_cachedTid" or len(a) != 4 \
+            or size.get("kind") != "UnaryExprOrTypeTraitExpr" or not mentions(size, "t_tidString"):
+        raise ExtractError("cacheTid: snprintf(t_tidString, sizeof t_tidString, fmt, t_cachedTid) expected")
+    if not sn and not any(sn_all[0] is x for x in walk(inner[1])):
+        raise ExtractError("cacheTid: t_tidString is not formatted under the guard")
+    out.append(bytes_def("tidFormat", string_of(a[2]), "`CurrentThread::cacheTid`: the format of `t_tidString`"))
+    m = re.search(r"\[(\d+)\]", ctype(strip(a[0])))
+    if not m:
+        raise ExtractError("cacheTid: t_tidString is not an array")
+    out.append("/-- `sizeof t_tidString` -/\ndef tidStringSize : Nat := %s\n" % m.group(1))
+
+    class LenTr(Tr):
+        def expr(self, n):
+            x = strip(n)
+            if x.get("kind") == "CallExpr" and callee_name(x) == "snprintf":
+                return "snprintfResult"
+            return Tr.expr(self, n)
+    out.append("/-- `cacheTid`: the value stored into `t_tidStringLength`, given what `snprintf` returned (the length of the text) -/\n"
+               "def cacheTidLength (snprintfResult : Int) : Int := %s\n" % unparen(LenTr({}, int_mode=True).expr(ln)))
+    # --- initial values of the thread-locals (CurrentThread.cc)
+    for nm, lean in (("t_cachedTid", "tidInitCached"), ("t_tidStringLength", "tidInitLength")):
+        v = [n for n in walk({"inner": cur}) if n.get("kind") == "VarDecl" and n.get("name") == nm and kids(n)
+             and n.get("tls") is not None]
+        vals = set()
+        for n in v:
+            i = strip(kids(n)[-1])
+            if i.get("kind") != "IntegerLiteral":
+                raise ExtractError("%s: initialiser is not an integer literal" % nm)
+            vals.add(int(i["value"]))
+        if len(vals) != 1:
+            raise ExtractError("%s: expected one thread-local definition with an initialiser, found %s" % (nm, sorted(vals)))
+        out.append("/-- initial value of `__thread %s` in every new thread (CurrentThread.cc) -/\ndef %s : Int := %d\n"
+                   % (nm, lean, vals.pop()))
+    ts = [n for n in walk({"inner": cur}) if n.get("kind") == "VarDecl" and n.get("name") == "t_tidString"
+          and n.get("tls") is not None and n.get("storageClass") != "extern"]
+    if len(ts) != 1 or kids(ts[0]):
+        raise ExtractError("t_tidString: expected one thread-local definition without initialiser (zero-filled)")
+    # --- who fills / resets the cache outside the logger (Thread.cc)
+    det = ast_dump("muduo/base/Thread.cc", "muduo::detail")
+    out.append(TID_STEP)
+    af = the_function(det, "afterFork")
+    out.append("/-- `detail::afterFork` (the `pthread_atfork` child handler) -/\ndef afterForkSteps : List TidStep := [%s]\n"
+               % ", ".join(tid_steps(stmts(body_of(af)), "afterFork")))
+    ini = [f for f in functions(det, "ThreadNameInitializer", kinds=("CXXConstructorDecl",))]
+    var = [n for n in walk({"inner": det}) if n.get("kind") == "VarDecl" and "ThreadNameInitializer" in ctype(n)
+           and n.get("storageClass") != "extern"]
+    registered, init_steps = False, []
+    if len(ini) == 1 and len(var) == 1:
+        body = stmts(body_of(ini[0]))
+        init_steps = tid_steps(body, "ThreadNameInitializer")
+        reg = [n for n in walk(body_of(ini[0])) if n.get("kind") == "CallExpr" and callee_name(n) == "pthread_atfork"]
+        if len(reg) > 1:
+            raise ExtractError("ThreadNameInitializer: more than one pthread_atfork")
+        if reg:
+            args = kids(reg[0])[1:]
+            if len(args) != 3:
+                raise ExtractError("pthread_atfork: three arguments expected")
+            child = [x for x in walk(args[2]) if x.get("kind") == "DeclRefExpr"]
+            registered = len(child) == 1 and child[0]["referencedDecl"]["name"] == "afterFork" \
+                and child[0]["referencedDecl"].get("id") == af.get("id")
+            if not registered and child:
+                raise ExtractError("pthread_atfork: the child handler is not detail::afterFork")
+    elif ini or var:
+        raise ExtractError("ThreadNameInitializer: expected one constructor and one static object")
+    out.append("/-- constructor of the static `detail::ThreadNameInitializer init` (runs on the main thread before `main`) -/\n"
+               "def staticInitSteps : List TidStep := [%s]\n" % ", ".join(init_steps))
+    out.append("/-- that constructor registers `afterFork` as the child handler: `pthread_atfork(NULL, NULL, &afterFork)` -/\n"
+               "def atforkChildRegistered : Bool := %s\n" % ("true" if registered else "false"))
+    rt = the_function(det, "runInThread")
+
+    def runs_func(s):
+        return s.get("kind") == "CXXTryStmt" or any(
+            x.get("kind") == "CXXOperatorCallExpr" and mentions(x, "func_") for x in walk(s))
+    top = [unwrap_stmt(s) for s in stmts(body_of(rt))]
+    if not any(runs_func(s) for s in top):
+        raise ExtractError("ThreadData::runInThread: the call of func_ was not found")
+    out.append("/-- `detail::ThreadData::runInThread` (every `muduo::Thread`) before it calls the user's function -/\n"
+               "def threadStartSteps : List TidStep := [%s]\n" % ", ".join(tid_steps(top, "runInThread", stop=runs_func)))
+    return out
+
+
 # ----------------------------------------------------------------------------- small integer functions
 
 class Locals(dict):
@@ -600,20 +794,44 @@ def generate():
     body = [unwrap_stmt(s) for s in stmts(body_of(impl))]
     if not (body and body[0].get("kind") == "CXXMemberCallExpr" and callee_name(body[0]) == "formatTime"):
         raise ExtractError("Impl::Impl does not start with formatTime()")
-    head, errno_if = [], None
-    for s in body[1:]:
-        if s.get("kind") == "CXXOperatorCallExpr":
-            head += chain(s)
+    # the statements in source order: the model executes this list (the call of CurrentThread::tid() is what
+    # fills the thread's tid cache; the insertion of T(tidString(), tidStringLength()) reads it)
+    head, errno_if, steps = [], None, []
+    for s in body:
+        if s.get("kind") == "CXXMemberCallExpr" and callee_name(s) == "formatTime" and len(kids(s)) == 1:
+            if steps:
+                raise ExtractError("Impl::Impl: formatTime() is not the first statement")
+            steps.append((".formatTime", []))
+        elif s.get("kind") == "CXXOperatorCallExpr":
+            if errno_if is not None:
+                raise ExtractError("Impl::Impl: an insertion follows the errno part")
+            ops = chain(s)
+            head += ops
+            steps.append((".ins", [piece(n) for n in ops]))
         elif s.get("kind") == "IfStmt":
             if errno_if is not None:
                 raise ExtractError("Impl::Impl: more than one `if`")
             errno_if = s
-        elif s.get("kind") == "CallExpr" and callee_name(s) == "tid":
-            continue
+            if len(kids(s)) != 2:
+                raise ExtractError("Impl::Impl: the errno `if` has an else")
+            eb = [unwrap_stmt(x) for x in stmts(kids(s)[1])]
+            steps.append((".errnoIf", [piece(n) for n in sum([chain(x) for x in eb], [])]))
+        elif is_tid_call(s):
+            steps.append((".callTid", []))
         else:
             raise ExtractError("Impl::Impl: unexpected statement %s" % s.get("kind"))
     if errno_if is None or body[-1] is not errno_if:
         raise ExtractError("Impl::Impl: the errno text is not the last part of the prefix")
+    uses = [i for i, (k, ps) in enumerate(steps) if ".tid" in ps]
+    calls = [i for i, (k, ps) in enumerate(steps) if k == ".callTid"]
+    if len(uses) != 1:
+        raise ExtractError("Impl::Impl: expected exactly one insertion of the tid string, found %d" % len(uses))
+    out.append(IMPL_STEP)
+    out.append("/-- the body of `Logger::Impl::Impl`, statement by statement -/\ndef implSteps : List ImplStep := [%s]\n"
+               % ", ".join(k if k in (".formatTime", ".callTid") else "%s [%s]" % (k, ", ".join(ps)) for k, ps in steps))
+    out.append("/-- a call of `CurrentThread::tid()` (which fills the thread's cache when it is empty) precedes the "
+               "insertion of `T(tidString(), tidStringLength())` in `Logger::Impl::Impl` -/\n"
+               "def tidCachedBeforeUse : Bool := %s\n" % ("true" if calls and calls[0] < uses[0] else "false"))
     out.append(pieces_def("headPieces", head, "`Logger::Impl::Impl` after `formatTime()`"))
     out.append(prop_def("errnoShown", [("savedErrno", "Int")],
                         unparen(Tr({"savedErrno": "savedErrno"}, int_mode=True).expr(if_cond(errno_if))),
@@ -708,12 +926,7 @@ def generate():
         out.append(bytes_def("usFormat" + lean, string_of(fa[0]), "microsecond field, zone %s" % ("valid" if which == 1 else "invalid (UTC)")))
         ch = [unwrap_stmt(s) for s in stmts(blk) if unwrap_stmt(s).get("kind") == "CXXOperatorCallExpr"]
         out.append(pieces_def("timePieces" + lean, sum([chain(s) for s in ch], []), "what `formatTime` inserts"))
-    th = ast_dump("muduo/base/Thread.cc", "muduo::CurrentThread::cacheTid")
-    ct = the_function(th, "cacheTid")
-    sn = [n for n in walk(body_of(ct)) if n.get("kind") == "CallExpr" and callee_name(n) == "snprintf"]
-    if len(sn) != 1 or ref_name(kids(sn[0])[4]) != "t_cachedTid":
-        raise ExtractError("cacheTid: snprintf")
-    out.append(bytes_def("tidFormat", string_of(kids(sn[0])[3]), "`CurrentThread::cacheTid`"))
+    out += tid_cache_section()
 
     # --- calendar arithmetic used by formatTime
     tz = ast_dump("muduo/base/TimeZone.cc", "muduo::detail")
